@@ -17,6 +17,13 @@ THEOREMS = [
     "Ural.Props.C10.history_refines",
     "Ural.Props.C10.history_len",
     "Ural.Props.C10.history_lmpv",
+    "Ural.Props.C10.generators_spec",
+    "Ural.Props.C10.itemsIter_spec",
+    "Ural.Props.C10.specRun_nodup",
+    "Ural.Props.C10.specRun_latest",
+    "Ural.Props.C10.history_items",
+    "Ural.Props.C10.history_prefixes",
+    "Ural.Props.C10.history_values",
 ]
 TABLE_OBLIGATIONS = []
 RULE = (
@@ -36,7 +43,7 @@ EXHAUSTIVE = {
 TRUSTED = [
     "Lean 4 kernel; axioms of every listed theorem audited to be within {propext, Classical.choice, Quot.sound}",
     "hand-written Lean model UralModel/Model/TrieDict.lean of ural/classes/trie_dict.py, tied to the code by differential execution of whole histories (this run)",
-    "Python dict insertion order and the explicit-stack traversal order are not modelled: items/prefixes/values are compared as sorted lists",
+    "the three explicit-stack generators items()/prefixes()/values() are modelled as three independent loops (dict insertion order = association-list order; fuel = number of nodes); the model reproduces Python's order (checked once: 0 disagreements in order over the quick stream), but the order is not part of the contract — a re-ordered traversal is a harmless edit — so model, implementation and oracle are compared as sorted lists (multisets); the theorems state permutations",
     "token equality is Python == on hashable tokens; the model uses strings as tokens",
 ]
 ASSUMPTIONS = [
@@ -198,6 +205,7 @@ def canon(op, out):
     for o, step in zip(out, _script_cache(op)):
         name = step[0]
         if name in ("items", "prefixes", "values") and isinstance(o, list):
+            # the order of the generators is not part of the contract: a re-ordered traversal is a harmless edit
             o = _sorted(o)
         elif name == "lmpv":
             # model answers Option: {"some": v} | "absent"; the API collapses absent to None
